@@ -105,6 +105,8 @@ def enc_fn(name):
         return lambda x: x.uri
     if name == 'none':
         return lambda x: None
+    if name == 'last':
+        return lambda x: (list(x.fields.values())[-1] if x.fields else None)
     return str
 
 def t_record(d):
@@ -249,11 +251,11 @@ def do_fs(op, a):
     if op == 'get_data_all':
         return out(lambda: t_record(GetFromAll().get_data(a[0], attributes=list(a[1]) or None, sid_encode=enc_fn(a[2]))))
     if op == 'find_paths':
-        return out(lambda: sorted(FindInPaths(a[0] or None).find(a[1], as_sid=False)))
+        return out(lambda: sorted(FindInPaths(a[0] or None).find(Sid(a[1]) if len(a) > 2 and a[2] == 'sidarg' else a[1], as_sid=False)))
     if op == 'find_paths_raw':
         return out(lambda: list(FindInPaths(a[0] or None).find(a[1], as_sid=False)))
     if op == 'find_all':
-        return out(lambda: sorted(FindInAll().find(a[0], as_sid=False)))
+        return out(lambda: sorted(FindInAll().find(Sid(a[0]) if len(a) > 1 and a[1] == 'sidarg' else a[0], as_sid=False)))
     if op == 'find_all_one':
         return out(lambda: t_opt(FindInAll().find_one(a[0], as_sid=False)))
     if op == 'find_all_raw':
@@ -336,6 +338,20 @@ def do(op, a):
             p = x.path(a[1] or None)
             return [t_sid(x), [] if p is None else [str(p)]]
         return out(f)
+    if op == 'via_path':
+        def f(x):
+            def g():
+                p = x.path(a[1] or None)
+                if p is None:
+                    return []
+                y = Sid(path=str(p), config=(a[1] or None))
+                if a[2] == 'get_as':
+                    return t_sid(y.get_as(a[3]))
+                if a[2] == 'parent':
+                    return t_sid(y.parent)
+                return t_sid(y)
+            return out(g)
+        return with_sid(a[0], f)
     if op == 'eq':
         return with_sid(a[0], lambda x: with_sid(a[1], lambda y: t_bool(x == y)))
     if op == 'to_dict':
@@ -406,7 +422,7 @@ def do(op, a):
         from spil import FindInList
         fl = FindInList(list(a[0]), do_pre_sort=(len(a) > 2 and a[2] == 'pre_sort'))
         if op == 'find_list':
-            return out(lambda: list(fl.find(a[1], as_sid=False)))
+            return out(lambda: list(fl.find(Sid(a[1]) if len(a) > 2 and a[2] == 'sidarg' else a[1], as_sid=False)))
         if op == 'find_list_sids':
             return out(lambda: [t_sid(x) for x in fl.find(a[1], as_sid=True)])
         if op == 'find_one':
